@@ -159,6 +159,26 @@ def run(ctx):
                 pr1 = [rng.randrange(4) for _ in range(rng.randrange(1, 4))]
                 creqs.append(("c11_caller_args", ["m", macs, re1, pr1, "condensed", None, rng.randrange(2),
                                                   [rng.choice(FORMS), rng.choice(FORMS)], caller_steps(rng, 4)]))
+        # the same for macrostates (the member container of the first request belongs to the caller)
+        mcreqs = []
+        for pop, macs in pops:
+            for _ in range(6 if quick else 50):
+                mem = rng.sample(range(6), rng.randrange(1, 5))
+                mcreqs.append(("c11_macro_caller_args", [pop, mem, rng.random() < 0.5, rng.randrange(2), rng.choice(FORMS),
+                                                         [st for st in caller_steps(rng, 5) if st[1] != "request"]]))
+        for rq, r in zip(mcreqs, run_impl(mcreqs)):
+            what = None
+            if isinstance(r, Err):
+                what = f"a well-formed macrostate request raised {r.kind}"
+            elif r[1]:
+                n, step, tag_, got, want = r[1][0]
+                what = (f"the macrostate's members/length {got} are not those of the request {want}" if tag_ == "members" else
+                        f"the request changed the caller's own container: {got} instead of {want}" if tag_ == "caller-container-changed" else
+                        f"after the caller edited his container (step {n}: {step[1]} {step[2]}) the existing macrostate changed: {got} instead of {want}")
+            if what:
+                found.append({"key": {"op": rq[0], "arg": rq[1]}, "input": [rq[0], rq[1]], "what": what,
+                              "snippet": f"# harness op c11_macro_caller_args {rq[1]!r} (harness/impl/compare.py); in short: buf=[A,B]; m=MacrostateS(buf); buf.pop(); len(m)"})
+        ctx.cov["correspondence"]["macrostate-caller-containers(impl)"] = {"cases": len(mcreqs)}
         okinds = {}
         direct = run_impl(oreqs + creqs)          # one batch: large enough to be spread over several processes
         for rq, r in zip(oreqs, direct[:len(oreqs)]):
